@@ -38,7 +38,7 @@ typedef struct { int16_t code; char letter; int8_t len; int8_t q; } ment_t;     
 static ment_t model[MAXCAP];
 static int mcount = 0;
 
-enum { OP_PUSH, OP_PUSHX, OP_PUSHQ, OP_PUSHN, OP_QUERY, OP_CLEAR, OP_CLS };
+enum { OP_PUSH, OP_PUSHX, OP_PUSHQ, OP_PUSHP, OP_PUSHN, OP_QUERY, OP_CLEAR, OP_CLS };
 typedef struct { int kind; int len, xlen, q; } op_t;
 static op_t ops[64];
 static int nops = 0;
@@ -49,6 +49,7 @@ static void opname(int op, char * buf, size_t n) {
         case OP_PUSH: snprintf(buf, n, "push(text of %d chars)", o->len); break;
         case OP_PUSHX: snprintf(buf, n, "push(text of %d chars, info_len=%d)", o->len, o->xlen); break;
         case OP_PUSHQ: snprintf(buf, n, "push(text of %d chars, the %s one a double quote)", o->len, o->q == 1 ? "last" : "first"); break;
+        case OP_PUSHP: snprintf(buf, n, "push(positive code, text of %d chars)", o->len); break;
         case OP_PUSHN: snprintf(buf, n, "push(no text)"); break;
         case OP_QUERY: snprintf(buf, n, "SYST:ERR?"); break;
         case OP_CLEAR: snprintf(buf, n, "ErrorClear"); break;
@@ -63,6 +64,8 @@ static void build_ops(void) {
     if (H >= 3) { ops[nops].kind = OP_PUSHX; ops[nops].len = 3; ops[nops].xlen = 1; nops++; }
     if (H >= 4) { ops[nops].kind = OP_PUSHX; ops[nops].len = H; ops[nops].xlen = 2; nops++; }
     if (H >= 3) { ops[nops].kind = OP_PUSHX; ops[nops].len = 2; ops[nops].xlen = 2; nops++; }      /* explicit length == text length: source not terminated */
+    if (H >= 5) { ops[nops].kind = OP_PUSHX; ops[nops].len = 2; ops[nops].xlen = 4; nops++; }      /* explicit length beyond the end of the text (a buffer size) */
+    if (H >= 4) { ops[nops].kind = OP_PUSHP; ops[nops].len = 3; nops++; }                          /* positive (device-specific) error number with a text */
     if (H >= 3) { ops[nops].kind = OP_PUSHQ; ops[nops].len = 2; ops[nops].q = 1; nops++; }          /* quotes: doubled on output, part by part when the text wraps */
     if (H >= 5) { ops[nops].kind = OP_PUSHQ; ops[nops].len = 4; ops[nops].q = 1; nops++; }
     if (H >= 4) { ops[nops].kind = OP_PUSHQ; ops[nops].len = 3; ops[nops].q = 2; nops++; }
@@ -150,10 +153,11 @@ static void mk_text(char * t, char letter, int len, int q) {
     if (q == 2 && len > 0) t[0] = '"';
 }
 
+static int push_positive = 0;
 static void do_push(int len, int xlen, int q) {
     char text[MAXH + 2];
     char letter = free_letter();
-    int16_t code = (int16_t) -(100 + len + (xlen ? 30 : 0) + (q ? 60 : 0));
+    int16_t code = push_positive ? (int16_t) (1000 + len) : (int16_t) -(100 + len + (xlen ? 30 : 0) + (q ? 60 : 0));
     mk_text(text, letter, len, q);
     if (xlen && xlen == len) { char * src = (char *) malloc((size_t) len); memcpy(src, text, (size_t) len); SCPI_ErrorPushEx(&ctx, code, src, (size_t) xlen); free(src); }
     else SCPI_ErrorPushEx(&ctx, code, text, (size_t) xlen);
@@ -225,6 +229,7 @@ static int apply(int op) {
         case OP_PUSH: do_push(o->len, 0, 0); break;
         case OP_PUSHX: do_push(o->len, o->xlen, 0); break;
         case OP_PUSHQ: do_push(o->len, 0, o->q); break;
+        case OP_PUSHP: push_positive = 1; do_push(o->len, 0, 0); push_positive = 0; break;
         case OP_PUSHN: SCPI_ErrorPush(&ctx, -300); model_push(-300, 0, -1, 0); break;
         case OP_QUERY: SCPI_Input(&ctx, "SYST:ERR?\n", 10); check_query(); break;
         case OP_CLEAR: SCPI_ErrorClear(&ctx); mcount = 0; break;
